@@ -64,13 +64,6 @@ theorem expand_shape (M : RModel) (rec : Expr → Except PyErr Expr) (e : Expr) 
       | ok v => simp only []; cases rec v <;> rfl
 
 -- ------------------------------------------------------------------------------------------------ loop = `bindD`
-/-- an arithmetic tree: no opaque subterm (where the model abstains: `Expr.bindD` answers `unsupported`) -/
-def opqFree : Expr → Bool
-  | .opq _ => false
-  | .bin _ a b => opqFree a && opqFree b
-  | .pow a _ => opqFree a
-  | _ => true
-
 /-- the exception of the first derivative (in iteration order) for which the loop raises -/
 def firstErr (g : Node → Except PyErr Expr) : List Node → Option PyErr
   | [] => none
@@ -153,24 +146,93 @@ theorem buildRepl_spec (g : Node → Except PyErr Expr) : ∀ (ds : List Node) (
 theorem derivAtoms_bin (op : BinOp) (a b : Expr) : derivAtoms (.bin op a b) = derivAtoms a ++ derivAtoms b := by
   simp [derivAtoms, Expr.nodes]
 
+theorem derivAtoms_opq (id : String) (args : List Expr) :
+    derivAtoms (.opq id args) = args.flatMap derivAtoms := by
+  simp only [derivAtoms, Expr.nodes, Expr.nodesL_eq, List.filter_flatMap]
+  rfl
+
+theorem xreplaceDerivsL_eq (es : List Expr) (r : List (Node × Expr)) :
+    xreplaceDerivsL es r = es.map (fun a => xreplaceDerivs a r) := by
+  induction es with
+  | nil => rfl
+  | cons a as ih => simp [xreplaceDerivsL, ih]
+
 theorem agrees_append {g : Node → Except PyErr Expr} {r : List (Node × Expr)} {a b : List Node}
     (h : Agrees g r (a ++ b)) : Agrees g r a ∧ Agrees g r b :=
   ⟨fun d hd => h d (List.mem_append_left _ hd), fun d hd => h d (List.mem_append_right _ hd)⟩
 
-/-- `Expr.bindD f` on an arithmetic tree is what the loop + `xreplace` of `expand_derivatives` compute, when `g` is
-    what the loop computes for one derivative -/
+/-- what `bindD_spec` says of one expression -/
+def BindSpec (cls : VErr → String) (f : Nat → Nat → Except VErr Expr) (g : Node → Except PyErr Expr) (e : Expr) : Prop :=
+  (∀ x, firstErr g (derivAtoms e) = some x → errClass cls (e.bindD f) = .error x) ∧
+  (firstErr g (derivAtoms e) = none → (∃ e', e.bindD f = .ok e') ∧
+      ∀ r, Agrees g r (derivAtoms e) → errClass cls (e.bindD f) = .ok (xreplaceDerivs e r))
+
+/-- … and of the argument places of an opaque term -/
+theorem bindDL_spec (cls : VErr → String) (f : Nat → Nat → Except VErr Expr) (g : Node → Except PyErr Expr) :
+    ∀ (es : List Expr), (∀ a ∈ es, BindSpec cls f g a) →
+    (∀ x, firstErr g (es.flatMap derivAtoms) = some x → errClass cls (Expr.bindDL f es) = .error x) ∧
+    (firstErr g (es.flatMap derivAtoms) = none → (∃ es', Expr.bindDL f es = .ok es') ∧
+        ∀ r, Agrees g r (es.flatMap derivAtoms) → errClass cls (Expr.bindDL f es) = .ok (xreplaceDerivsL es r))
+  | [], _ => ⟨fun x h => (by cases h), fun _ => ⟨⟨[], rfl⟩, fun r _ => rfl⟩⟩
+  | a :: as, h => by
+    obtain ⟨a1, a2⟩ := h a (List.mem_cons_self ..)
+    obtain ⟨b1, b2⟩ := bindDL_spec cls f g as (fun x hx => h x (List.mem_cons_of_mem _ hx))
+    simp only [List.flatMap_cons, firstErr_append, Expr.bindDL]
+    cases hfa : firstErr g (derivAtoms a) with
+    | some xa =>
+      have := a1 xa hfa
+      simp only []
+      refine ⟨fun x hx => ?_, fun hn => by cases hn⟩
+      cases hx
+      cases ha : a.bindD f with
+      | error y => rw [ha] at this; simpa [errClass] using this
+      | ok a' => rw [ha] at this; cases this
+    | none =>
+      obtain ⟨⟨a', ha'⟩, hra⟩ := a2 hfa
+      simp only [ha']
+      constructor
+      · intro x hx
+        have := b1 x hx
+        cases hb : Expr.bindDL f as with
+        | error y => rw [hb] at this; simpa [errClass] using this
+        | ok b' => rw [hb] at this; cases this
+      · intro hn
+        obtain ⟨⟨b', hb'⟩, hrb⟩ := b2 hn
+        refine ⟨⟨_, by rw [hb']⟩, fun r hag => ?_⟩
+        obtain ⟨hga, hgb⟩ := agrees_append hag
+        have e1 := hra r hga
+        have e2 := hrb r hgb
+        rw [ha'] at e1
+        rw [hb'] at e2 ⊢
+        simp only [errClass, xreplaceDerivsL] at e1 e2 ⊢
+        cases e1; cases e2; rfl
+
+/-- `Expr.bindD f` is what the loop + `xreplace` of `expand_derivatives` compute, when `g` is what the loop computes
+    for one derivative (opaque terms included: both reach into the argument places) -/
 theorem bindD_spec (cls : VErr → String) (f : Nat → Nat → Except VErr Expr) (g : Node → Except PyErr Expr)
-    (hfg : ∀ s t, g (.deriv s t) = errClass cls (f s t)) : ∀ (e : Expr), opqFree e = true →
-    (∀ x, firstErr g (derivAtoms e) = some x → errClass cls (e.bindD f) = .error x) ∧
-    (firstErr g (derivAtoms e) = none → (∃ e', e.bindD f = .ok e') ∧
-        ∀ r, Agrees g r (derivAtoms e) → errClass cls (e.bindD f) = .ok (xreplaceDerivs e r)) := by
+    (hfg : ∀ s t, g (.deriv s t) = errClass cls (f s t)) : ∀ (e : Expr), BindSpec cls f g e := by
   intro e
+  unfold BindSpec
   induction e with
-  | num q => intro _; exact ⟨fun x h => (by cases h), fun _ => ⟨⟨_, rfl⟩, fun r _ => rfl⟩⟩
-  | var v => intro _; exact ⟨fun x h => (by cases h), fun _ => ⟨⟨_, rfl⟩, fun r _ => rfl⟩⟩
-  | opq refs => intro h; cases h
+  | num q => exact ⟨fun x h => (by cases h), fun _ => ⟨⟨_, rfl⟩, fun r _ => rfl⟩⟩
+  | var v => exact ⟨fun x h => (by cases h), fun _ => ⟨⟨_, rfl⟩, fun r _ => rfl⟩⟩
+  | opq id args ih =>
+    obtain ⟨l1, l2⟩ := bindDL_spec cls f g args ih
+    simp only [derivAtoms_opq, Expr.bindD]
+    constructor
+    · intro x hx
+      have := l1 x hx
+      cases ha : Expr.bindDL f args with
+      | error y => rw [ha] at this; simpa [errClass] using this
+      | ok a' => rw [ha] at this; cases this
+    · intro hn
+      obtain ⟨⟨a', ha'⟩, hr⟩ := l2 hn
+      refine ⟨⟨_, by rw [ha']⟩, fun r hag => ?_⟩
+      have := hr r hag
+      rw [ha'] at this ⊢
+      simp only [errClass, xreplaceDerivs] at this ⊢
+      cases this; rfl
   | deriv s t =>
-    intro _
     have hda : derivAtoms (.deriv s t) = [.deriv s t] := rfl
     simp only [hda, firstErr, Expr.bindD, hfg]
     cases hf : f s t with
@@ -182,9 +244,8 @@ theorem bindD_spec (cls : VErr → String) (f : Nat → Nat → Except VErr Expr
       cases hx
       simp [xreplaceDerivs, hl, errClass]
   | pow a n ih =>
-    intro h
-    obtain ⟨ih1, ih2⟩ := ih h
-    have hda : derivAtoms (.pow a n) = derivAtoms a := rfl
+    obtain ⟨ih1, ih2⟩ := ih
+    have hda : derivAtoms (.pow a n) = derivAtoms a := by simp [derivAtoms, Expr.nodes]
     simp only [hda, Expr.bindD]
     constructor
     · intro x hx
@@ -200,10 +261,8 @@ theorem bindD_spec (cls : VErr → String) (f : Nat → Nat → Except VErr Expr
       simp only [errClass, xreplaceDerivs] at this ⊢
       cases this; rfl
   | bin op a b iha ihb =>
-    intro h
-    simp only [opqFree, Bool.and_eq_true] at h
-    obtain ⟨a1, a2⟩ := iha h.1
-    obtain ⟨b1, b2⟩ := ihb h.2
+    obtain ⟨a1, a2⟩ := iha
+    obtain ⟨b1, b2⟩ := ihb
     simp only [derivAtoms_bin, firstErr_append, Expr.bindD]
     cases hfa : firstErr g (derivAtoms a) with
     | some xa =>
@@ -234,13 +293,20 @@ theorem bindD_spec (cls : VErr → String) (f : Nat → Nat → Except VErr Expr
         simp only [errClass, xreplaceDerivs] at e1 e2 ⊢
         cases e1; cases e2; rfl
 
-theorem xreplaceDerivs_nil : ∀ e : Expr, xreplaceDerivs e [] = e
-  | .num _ => rfl
-  | .var _ => rfl
-  | .deriv _ _ => rfl
-  | .opq _ => rfl
-  | .pow a n => by simp [xreplaceDerivs, xreplaceDerivs_nil a]
-  | .bin op a b => by simp [xreplaceDerivs, xreplaceDerivs_nil a, xreplaceDerivs_nil b]
+theorem map_eq_self {α} (f : α → α) (l : List α) (h : ∀ a ∈ l, f a = a) : l.map f = l := by
+  induction l with
+  | nil => rfl
+  | cons a as ih =>
+    rw [List.map_cons, h a (List.mem_cons_self ..), ih (fun x hx => h x (List.mem_cons_of_mem _ hx))]
+
+theorem xreplaceDerivs_nil (e : Expr) : xreplaceDerivs e [] = e := by
+  induction e with
+  | num _ => simp [xreplaceDerivs]
+  | var _ => simp [xreplaceDerivs]
+  | deriv _ _ => simp [xreplaceDerivs]
+  | opq id args ih => simp only [xreplaceDerivs, xreplaceDerivsL_eq, map_eq_self _ args ih]
+  | pow a n ih => simp [xreplaceDerivs, ih]
+  | bin op a b iha ihb => simp [xreplaceDerivs, iha, ihb]
 
 /-- what the loop of `expand_derivatives` computes for `Derivative(s, t)` when the recursive call is the model's
     `expand` with fuel `F` = what `expand … (F+1)` hands to `bindD` -/
@@ -260,9 +326,8 @@ theorem replFor_expand (M : RModel) (F : Nat) (s t : Nat) :
 /-- **`expand_derivatives` = `expand`**: for every model, every fuel and every arithmetic tree, the function generated
     from the nested `expand_derivatives` of `_get_value`, with its recursive call bound to `expand M F`, computes
     `expand M (F+1)` — the hand model is the fixpoint of the generated functional (value and exception class).
-    Domain: `opqFree e` (the model abstains on opaque subterms: `unsupported`; python evaluates them). The right-hand
-    sides reached through the recursion are not restricted. -/
-theorem expandDerivatives_tie (M : RModel) (F : Nat) (e : Expr) (h : opqFree e = true) :
+    No hypothesis on `e`: uninterpreted applications are expanded in their argument places by both. -/
+theorem expandDerivatives_tie (M : RModel) (F : Nat) (e : Expr) :
     RolesValue.expandDerivatives M (fun e' => errClass verrClass (expand M F e')) e
       = errClass verrClass (expand M (F + 1) e) := by
   rw [expand_shape]
@@ -270,7 +335,7 @@ theorem expandDerivatives_tie (M : RModel) (F : Nat) (e : Expr) (h : opqFree e =
       | none => .error .noDefinition
       | some r => expand M F r) := rfl
   rw [hexp]
-  obtain ⟨s1, s2⟩ := bindD_spec verrClass _ _ (replFor_expand M F) e h
+  obtain ⟨s1, s2⟩ := bindD_spec verrClass _ _ (replFor_expand M F) e
   obtain ⟨l1, l2⟩ := buildRepl_spec (replFor M (fun e' => errClass verrClass (expand M F e'))) (derivAtoms e) []
   cases hfe : firstErr (replFor M (fun e' => errClass verrClass (expand M F e'))) (derivAtoms e) with
   | some x =>
@@ -369,14 +434,21 @@ theorem forIn_eq_evalDeps (body : Nat → PyMemo → Except PyErr (ForInStep PyM
       | ok p => obtain ⟨q, m'⟩ := p; simp only [bind, Except.bind]; exact ih _
 
 -- ------------------------------------------------------------------------------------------------ xreplace + float
-/-- the numbers of the memo substituted for the variables -/
-def substNum (m : Memo) : Expr → Expr
-  | .var v => match m.lookup v with
-    | some q => .num q
-    | none => .var v
-  | .bin op a b => .bin op (substNum m a) (substNum m b)
-  | .pow a n => .pow (substNum m a) n
-  | e => e
+mutual
+  /-- the numbers of the memo substituted for the variables -/
+  def substNum (m : Memo) : Expr → Expr
+    | .var v => match m.lookup v with
+      | some q => .num q
+      | none => .var v
+    | .bin op a b => .bin op (substNum m a) (substNum m b)
+    | .pow a n => .pow (substNum m a) n
+    | .opq id args => .opq id (substNumL m args)
+    | .num q => .num q
+    | .deriv s t => .deriv s t
+  def substNumL (m : Memo) : List Expr → List Expr
+    | [] => []
+    | a :: as => substNum m a :: substNumL m as
+end
 
 theorem lookup_encL (m : Memo) (v : Nat) : (encL m).lookup v = (m.lookup v).map some := by
   induction m with
@@ -386,51 +458,84 @@ theorem lookup_encL (m : Memo) (v : Nat) : (encL m).lookup v = (m.lookup v).map 
     simp only [encL, List.map_cons, List.lookup] at ih ⊢
     cases v == a <;> simp [ih]
 
-theorem substVals_enc (m : Memo) : ∀ e : Expr, substVals (encL m) e = some (substNum m e)
-  | .num _ => rfl
-  | .deriv _ _ => rfl
-  | .opq _ => rfl
-  | .var v => by
+theorem substValsL_enc (m : Memo) : ∀ (es : List Expr), (∀ a ∈ es, substVals (encL m) a = some (substNum m a)) →
+    substValsL (encL m) es = some (substNumL m es)
+  | [], _ => rfl
+  | a :: as, h => by
+    simp only [substValsL, substNumL, h a (List.mem_cons_self ..),
+      substValsL_enc m as (fun x hx => h x (List.mem_cons_of_mem _ hx))]
+
+theorem substVals_enc (m : Memo) (e : Expr) : substVals (encL m) e = some (substNum m e) := by
+  induction e with
+  | num _ => simp [substVals, substNum]
+  | deriv _ _ => simp [substVals, substNum]
+  | opq id args ih => simp [substVals, substNum, substValsL_enc m args ih]
+  | var v =>
     simp only [substVals, substNum, lookup_encL]
     cases m.lookup v <;> rfl
-  | .pow a n => by simp [substVals, substNum, substVals_enc m a]
-  | .bin op a b => by simp [substVals, substNum, substVals_enc m a, substVals_enc m b]
+  | pow a n ih => simp [substVals, substNum, ih]
+  | bin op a b iha ihb => simp [substVals, substNum, iha, ihb]
 
-theorem evalE_substNum (m : Memo) : ∀ e : Expr, evalE [] (substNum m e) = evalE m e
-  | .num _ => rfl
-  | .deriv _ _ => rfl
-  | .opq _ => rfl
-  | .var v => by
+theorem evalEL_substNum (fn : Interp) (m : Memo) : ∀ (es : List Expr),
+    (∀ a ∈ es, evalE fn [] (substNum m a) = evalE fn m a) → evalEL fn [] (substNumL m es) = evalEL fn m es
+  | [], _ => rfl
+  | a :: as, h => by
+    simp only [substNumL, evalEL, h a (List.mem_cons_self ..),
+      evalEL_substNum fn m as (fun x hx => h x (List.mem_cons_of_mem _ hx))]
+
+theorem evalE_substNum (fn : Interp) (m : Memo) (e : Expr) : evalE fn [] (substNum m e) = evalE fn m e := by
+  induction e with
+  | num _ => simp [substNum, evalE]
+  | deriv _ _ => simp [substNum, evalE]
+  | opq id args ih => simp only [substNum, evalE, evalEL_substNum fn m args ih]
+  | var v =>
     simp only [substNum, evalE]
     cases m.lookup v <;> rfl
-  | .pow a n => by simp only [substNum, evalE, evalE_substNum m a]
-  | .bin op a b => by simp only [substNum, evalE, evalE_substNum m a, evalE_substNum m b]
+  | pow a n ih => simp only [substNum, evalE, ih]
+  | bin op a b iha ihb => simp only [substNum, evalE, iha, ihb]
 
 theorem vars_bin (op : BinOp) (a b : Expr) : (Expr.bin op a b).vars = a.vars ++ b.vars := by
   simp [Expr.vars, Expr.nodes]
 
-theorem substNum_of_no_vars (m : Memo) : ∀ e : Expr, e.vars = [] → substNum m e = e
-  | .num _, _ => rfl
-  | .deriv _ _, _ => rfl
-  | .opq _, _ => rfl
-  | .var v, h => by simp [Expr.vars, Expr.nodes, Node.atoms] at h
-  | .pow a n, h => by
-    have : a.vars = [] := h
-    simp [substNum, substNum_of_no_vars m a this]
-  | .bin op a b, h => by
+theorem vars_opq_nil {id : String} {args : List Expr} (h : (Expr.opq id args).vars = []) : ∀ a ∈ args, a.vars = [] := by
+  intro a ha
+  simp only [Expr.vars, Expr.nodes, Expr.nodesL_eq, List.flatMap_eq_nil_iff, List.mem_flatMap] at h ⊢
+  intro n hn
+  exact h n ⟨a, ha, hn⟩
+
+theorem substNumL_eq (m : Memo) (es : List Expr) : substNumL m es = es.map (substNum m) := by
+  induction es with
+  | nil => rfl
+  | cons a as ih => simp [substNumL, ih]
+
+theorem substNum_of_no_vars (m : Memo) (e : Expr) : e.vars = [] → substNum m e = e := by
+  induction e with
+  | num _ => intro _; simp [substNum]
+  | deriv _ _ => intro _; simp [substNum]
+  | opq id args ih =>
+    intro h
+    simp only [substNum, substNumL_eq, map_eq_self _ args (fun a ha => ih a ha (vars_opq_nil h a ha))]
+  | var v => intro h; simp [Expr.vars, Expr.nodes, Node.atoms] at h
+  | pow a n ih =>
+    intro h
+    have : a.vars = [] := by simpa [Expr.vars, Expr.nodes] using h
+    simp [substNum, ih this]
+  | bin op a b iha ihb =>
+    intro h
     rw [vars_bin, List.append_eq_nil_iff] at h
-    simp [substNum, substNum_of_no_vars m a h.1, substNum_of_no_vars m b h.2]
+    simp [substNum, iha h.1, ihb h.2]
 
 /-- `float(expr.xreplace(evaluated))` = `evalE` -/
-theorem xreplace_float (m : Memo) (e : Expr) :
+theorem xreplace_float (fn : Interp) (m : Memo) (e : Expr) :
     (match xreplaceMemo e (enc m) with
       | .error err => .error err
-      | .ok e' => floatExpr e') = errClass verrClass (evalE m e) := by
+      | .ok e' => floatExpr fn e') = errClass verrClass (evalE fn m e) := by
   simp only [xreplaceMemo, enc, substVals_enc, floatExpr, evalE_substNum]
 
 /-- `float(expr)` of a tree without variables = `evalE` with any memo -/
-theorem float_no_vars (m : Memo) (e : Expr) (h : e.vars = []) : floatExpr e = errClass verrClass (evalE m e) := by
-  rw [← evalE_substNum m e, substNum_of_no_vars m e h]; rfl
+theorem float_no_vars (fn : Interp) (m : Memo) (e : Expr) (h : e.vars = []) :
+    floatExpr fn e = errClass verrClass (evalE fn m e) := by
+  rw [← evalE_substNum fn m e, substNum_of_no_vars m e h]; rfl
 
 theorem freeVar_of_empty (M : RModel) (h : (odeKeys M).isEmpty = true) : freeVar M = none := by
   unfold odeKeys stateKeys at h
@@ -442,7 +547,8 @@ theorem freeVar_of_empty (M : RModel) (h : (odeKeys M).isEmpty = true) : freeVar
 theorem xreplaceMemo_enc (m : Memo) (e : Expr) : xreplaceMemo e (enc m) = .ok (substNum m e) := by
   simp [xreplaceMemo, enc, substVals_enc]
 
-theorem floatExpr_substNum (m : Memo) (e : Expr) : floatExpr (substNum m e) = errClass verrClass (evalE m e) := by
+theorem floatExpr_substNum (fn : Interp) (m : Memo) (e : Expr) :
+    floatExpr fn (substNum m e) = errClass verrClass (evalE fn m e) := by
   simp [floatExpr, evalE_substNum]
 
 /-- **`_get_value` = `getValueAux`** (one level of the recursion): for every model, fuels, variable and dictionary,
@@ -450,9 +556,9 @@ theorem floatExpr_substNum (m : Memo) (e : Expr) : floatExpr (substNum m e) = er
     (`expandDerivatives_tie`), its recursive call bound to the model one level down — returns what
     `getValueAux M F (f+1)` returns: the value, the dictionary as the call leaves it, the exception class.
     `odeLhsOk`: see `getFreeVariable_tie`. -/
-theorem getValueRec_tie (M : RModel) (F f v : Nat) (m : Memo) (hl : odeLhsOk M = true) :
-    RolesValue.getValueRec M (fun e => errClass verrClass (expand M F e)) (recOf (getValueAux M F f)) v (enc m)
-      = recOf (getValueAux M F (f + 1)) v (enc m) := by
+theorem getValueRec_tie (fn : Interp) (M : RModel) (F f v : Nat) (m : Memo) (hl : odeLhsOk M = true) :
+    RolesValue.getValueRec M fn (fun e => errClass verrClass (expand M F e)) (recOf (getValueAux fn M F f)) v (enc m)
+      = recOf (getValueAux fn M F (f + 1)) v (enc m) := by
   unfold RolesValue.getValueRec
   simp only [bind, Except.bind, pure, Except.pure, throw, throwThe, MonadExceptOf.throw, Py.truthy_list, tryCatch,
     tryCatchThe, MonadExceptOf.tryCatch, Except.tryCatch, EarlyReturnT.return, EarlyReturn.runK, ExceptT.pure,
@@ -488,21 +594,21 @@ theorem getValueRec_tie (M : RModel) (F f v : Nat) (m : Memo) (hl : odeLhsOk M =
         by_cases hd : r'.vars.isEmpty = true
         · have hnil := List.isEmpty_iff.mp hd
           simp only [hnil, evalDeps]
-          rw [float_no_vars m r' hnil]
-          cases evalE m r' <;> simp [errClass]
+          rw [float_no_vars fn m r' hnil]
+          cases evalE fn m r' <;> simp [errClass]
         · simp only [hd, Bool.not_false, if_true]
-          rw [forIn_eq_evalDeps (g := getValueAux M F f)]
-          · cases hdeps : evalDeps (getValueAux M F f) r'.vars m with
+          rw [forIn_eq_evalDeps (g := getValueAux fn M F f)]
+          · cases hdeps : evalDeps (getValueAux fn M F f) r'.vars m with
             | error e => simp
             | ok m' =>
               simp only [xreplaceMemo_enc, floatExpr_substNum]
-              cases evalE m' r' <;> simp [errClass]
+              cases evalE fn m' r' <;> simp [errClass]
           · intro d m0
             rw [keys_enc, dec_enc]
             by_cases hk : hasKey d m0 = true
             · simp [hk]
             · simp only [hk, Bool.not_false, if_true, Bool.false_eq_true, if_false]
-              cases getValueAux M F f d m0 with
+              cases getValueAux fn M F f d m0 with
               | error e => rfl
               | ok p => obtain ⟨q, m'⟩ := p; simp only [setItem_enc]
 -- ------------------------------------------------------------------------------------------------ the first call (`evaluated=None`)
@@ -581,10 +687,11 @@ theorem freeVar_some_of_nonempty (M : RModel) (hl : odeLhsOk M = true) (he : ¬ 
     | var x => simp [hlhs] at hl
     | other => simp [hlhs] at hl
 
-theorem getValueRec_none (M : RModel) (ex : Expr → Except PyErr Expr) (rec : Nat → PyMemo → Except PyErr (Rat × PyMemo))
+theorem getValueRec_none (fn : Interp) (M : RModel) (ex : Expr → Except PyErr Expr) (rec : Nat → PyMemo → Except PyErr (Rat × PyMemo))
     (v : Nat) (hl : odeLhsOk M = true)
     (hinit : ∀ s ∈ stateKeys M.st, (initOf M.st s).isSome = true) (hnd : (stateKeys M.st).Nodup) :
-    (RolesValue.getValueRec M ex rec v none).map (·.1) = (RolesValue.getValueRec M ex rec v (enc (memo0 M))).map (·.1) := by
+    (RolesValue.getValueRec M fn ex rec v none).map (·.1) =
+      (RolesValue.getValueRec M fn ex rec v (enc (memo0 M))).map (·.1) := by
   unfold RolesValue.getValueRec
   simp only [bind, Except.bind, pure, Except.pure, throw, throwThe, MonadExceptOf.throw, Py.truthy_list, tryCatch,
     tryCatchThe, MonadExceptOf.tryCatch, Except.tryCatch, EarlyReturnT.return, EarlyReturn.runK, ExceptT.pure,
@@ -614,7 +721,7 @@ theorem getValueRec_none (M : RModel) (ex : Expr → Except PyErr Expr) (rec : N
         simp only []
         by_cases hd : (varAtoms r').isEmpty = true
         · simp only [hd, Bool.not_true, Bool.false_eq_true, if_false]
-          cases floatExpr r' <;> rfl
+          cases floatExpr fn r' <;> rfl
         · simp only [hd, Bool.not_false, if_true]
           have hnone : Option.isNone (enc (memo0 M)) = false := rfl
           simp only [hnone, Bool.false_eq_true, if_false, Option.isNone_none, if_true]
@@ -633,10 +740,10 @@ theorem getValueRec_none (M : RModel) (ex : Expr → Except PyErr Expr) (rec : N
               unfold memo0; simp only [ht]
             simp only [he, Bool.not_false, if_true, ht, optErr, hz, setItem_enc, hm]
 
-theorem getValueRec_congr_ex (M : RModel) (ex1 ex2 : Expr → Except PyErr Expr)
+theorem getValueRec_congr_ex (fn : Interp) (M : RModel) (ex1 ex2 : Expr → Except PyErr Expr)
     (rec : Nat → PyMemo → Except PyErr (Rat × PyMemo)) (v : Nat) (pm : PyMemo)
     (h : ∀ eq, varDefItem M v = .ok eq → ex1 (eqRhs M eq) = ex2 (eqRhs M eq)) :
-    RolesValue.getValueRec M ex1 rec v pm = RolesValue.getValueRec M ex2 rec v pm := by
+    RolesValue.getValueRec M fn ex1 rec v pm = RolesValue.getValueRec M fn ex2 rec v pm := by
   unfold RolesValue.getValueRec
   simp only [bind, Except.bind, pure, Except.pure, throw, throwThe, MonadExceptOf.throw, Py.truthy_list, tryCatch,
     tryCatchThe, MonadExceptOf.tryCatch, Except.tryCatch, EarlyReturnT.return, EarlyReturn.runK, ExceptT.pure,
@@ -660,50 +767,44 @@ theorem getValueRec_congr_ex (M : RModel) (ex1 ex2 : Expr → Except PyErr Expr)
 
 /-- `_get_value` with BOTH of its inner functions generated from the source: the nested `expand_derivatives` is the
     generated `expandDerivatives` (recursive call: `expand M F`), the recursive `_get_value` call is the model one level
-    down. Domain: the right-hand side of the definition of `v` is an arithmetic tree (`opqFree`). -/
-theorem getValueRec_full_tie (M : RModel) (F f v : Nat) (m : Memo) (hl : odeLhsOk M = true)
-    (hopq : ∀ eq, M.st.varDef.lookup v = some eq → opqFree (M.rhs eq.tok) = true) :
-    RolesValue.getValueRec M (RolesValue.expandDerivatives M (fun e' => errClass verrClass (expand M F e')))
-        (recOf (getValueAux M (F + 1) f)) v (enc m)
-      = recOf (getValueAux M (F + 1) (f + 1)) v (enc m) := by
-  rw [← getValueRec_tie M (F + 1) f v m hl]
+    down. For every interpretation `fn` of the opaque terms and every right-hand side. -/
+theorem getValueRec_full_tie (fn : Interp) (M : RModel) (F f v : Nat) (m : Memo) (hl : odeLhsOk M = true) :
+    RolesValue.getValueRec M fn (RolesValue.expandDerivatives M (fun e' => errClass verrClass (expand M F e')))
+        (recOf (getValueAux fn M (F + 1) f)) v (enc m)
+      = recOf (getValueAux fn M (F + 1) (f + 1)) v (enc m) := by
+  rw [← getValueRec_tie fn M (F + 1) f v m hl]
   apply getValueRec_congr_ex
-  intro eq heq
+  intro eq _
   apply expandDerivatives_tie
-  apply hopq
-  unfold varDefItem at heq
-  cases hlk : M.st.varDef.lookup v with
-  | none => rw [hlk] at heq; cases heq
-  | some e => rw [hlk] at heq; cases heq; rfl
 
 /-- **`get_value` = `getValue`**: the generated `get_value`, calling the generated `_get_value` (whose inner calls are
     the model with `|variables| + 1` / `|variables|` levels of fuel), returns what `getValue M v` returns, exception
     class included. Domain: `odeLhsOk` (see `getFreeVariable_tie`); every state has an initial value (the model leaves
     a state without one out of `memo0` where python stores `None`: see the report); the keys of the ODE map are distinct
     (a python dict). -/
-theorem getValue_tie (M : RModel) (v : Nat) (hl : odeLhsOk M = true)
+theorem getValue_tie (fn : Interp) (M : RModel) (v : Nat) (hl : odeLhsOk M = true)
     (hinit : ∀ s ∈ stateKeys M.st, (initOf M.st s).isSome = true) (hnd : (stateKeys M.st).Nodup) :
     RolesValue.getValue M
-        (RolesValue.getValueRec M (fun e => errClass verrClass (expand M (M.st.live.length + 1) e))
-          (recOf (getValueAux M (M.st.live.length + 1) M.st.live.length))) v
-      = errClass verrClass (Model.getValue M v) := by
-  have h := getValueRec_none M (fun e => errClass verrClass (expand M (M.st.live.length + 1) e))
-    (recOf (getValueAux M (M.st.live.length + 1) M.st.live.length)) v hl hinit hnd
-  rw [getValueRec_tie M _ _ v (memo0 M) hl] at h
+        (RolesValue.getValueRec M fn (fun e => errClass verrClass (expand M (M.st.live.length + 1) e))
+          (recOf (getValueAux fn M (M.st.live.length + 1) M.st.live.length))) v
+      = errClass verrClass (Model.getValue fn M v) := by
+  have h := getValueRec_none fn M (fun e => errClass verrClass (expand M (M.st.live.length + 1) e))
+    (recOf (getValueAux fn M (M.st.live.length + 1) M.st.live.length)) v hl hinit hnd
+  rw [getValueRec_tie fn M _ _ v (memo0 M) hl] at h
   unfold RolesValue.getValue
   simp only [bind, Except.bind, pure, Except.pure]
   unfold Model.getValue getValueFuel
   simp only [recOf, dec_enc] at h
-  cases hg : RolesValue.getValueRec M (fun e => errClass verrClass (expand M (M.st.live.length + 1) e))
-      (recOf (getValueAux M (M.st.live.length + 1) M.st.live.length)) v none with
+  cases hg : RolesValue.getValueRec M fn (fun e => errClass verrClass (expand M (M.st.live.length + 1) e))
+      (recOf (getValueAux fn M (M.st.live.length + 1) M.st.live.length)) v none with
   | error e =>
     rw [hg] at h
-    cases ha : getValueAux M (M.st.live.length + 1) (M.st.live.length + 1) v (memo0 M) with
+    cases ha : getValueAux fn M (M.st.live.length + 1) (M.st.live.length + 1) v (memo0 M) with
     | error e' => rw [ha] at h; simp only [Except.map] at h; cases h; rfl
     | ok p => rw [ha] at h; simp only [Except.map] at h; cases h
   | ok p =>
     rw [hg] at h
-    cases ha : getValueAux M (M.st.live.length + 1) (M.st.live.length + 1) v (memo0 M) with
+    cases ha : getValueAux fn M (M.st.live.length + 1) (M.st.live.length + 1) v (memo0 M) with
     | error e' => rw [ha] at h; simp only [Except.map] at h; cases h
     | ok p' =>
       rw [ha] at h
